@@ -58,6 +58,7 @@ type Scenario struct {
 	CancelUs  int64  `json:"cancel_us"`
 	wire.Script
 	Run    *RunParams     `json:"run"`
+	Mix    []*RunParams   `json:"mix"`
 	Engine *EngineScript  `json:"engine"`
 	Extra  map[string]any `json:"extra"`
 }
